@@ -41,6 +41,9 @@ def lexer_half(ctx, what):
         return out, []
     out["present"] = True
     mods = _opt_modules(["Vore.Props." + what])
+    if not mods:
+        out["note"] = "Props/%s.lean not installed yet: lexer half skipped" % what
+        return out, []
     if mods:
         r = run_extract_lex(ctx, modules=tuple(["Vore.Model.Lexer"] + mods))
         out["extract_ok"] = bool(r.get("ok"))
